@@ -34,6 +34,12 @@ CHECKS['C13'] = dict(tech=T + ' of each public Dispatch_Engine entry with a lock
 CHECKS['C18'] = dict(tech=T + ' (json_escape, JSONParser::parse_string/parse_bool/parse_null/consume_ws/parse_next/parse_array) on symbolic text',
    text='String round trip json_escape->parse_string is the identity for every string of up to N bytes (all byte values); the scalar kernels tolerate every text of up to N bytes from every start offset (no access outside the text, only runtime_error/out_of_range leave, cursor within bounds); parse_next dispatches by first character, rejects nesting depth > 512 for ANY depth value and containers parse elements at depth+1 (bounded native recursion by induction).',
    note='texts <= 15 bytes (SSO string model); JSON value constructors are recorders; numbers (floating accuracy) and container round trip are declined')
+CHECKS['C06'] = dict(tech=T + ' (Cast_Helper_Inner<T>::cast for the value/const&/&/*/const* parameter forms) on a symbolic Boxed_Value::Data',
+   text='For each parameter form over int the real cast is executed on an arbitrary box (static and bare type from a 4-type universe, every flag combination, null or non-null object) that satisfies the Data invariant: it returns only for an object of the declared type, mutable forms never accept const objects, null objects are reported for reference/value forms, and C++ receives exactly the stored object.',
+   note='overload-set dispatch (D4), ordering (D5), arity check (D1) and conversion fallback are not covered yet; typeinfo compared by address')
+CHECKS['C07'] = dict(tech=T + ' (Equation_AST_Node::eval_internal with abstract children; Boxed_Value::Data constructor; Boxed_Number::oper with recorder kernels)',
+   text='Assignment node: for symbolic operator kind, child behaviours and value flags, a const or temporary target is rejected with eval_error and nothing that could modify it (arithmetic kernel, = function, := rebinding, clone) is invoked. Data constructor: mutable pointer is null exactly for const types, for every flag combination. Arithmetic dispatch: in-place kernels receive a mutable pointer only for a non-const, non-return-value left operand, for every pair of registered arithmetic types.',
+   note='mutating members of bound containers are refused by the casts of C06 (not composed end-to-end); Prefix ++/-- and attribute access not covered yet')
 ALL = ['C%02d' % i for i in range(1, 21)]
 def main():
     checks = []
